@@ -25,6 +25,53 @@ CLAIMED = {
         "open (lenient spellings) are neutral and never judged.",
         "5/C02",
     ),
+    "C11": (
+        "complete enumeration of the property x format x value x spelling matrix against documented expectations",
+        "Every data-format property is set in every format with every documented spelling of 105 code points, "
+        "documented / foreign / malformed values, all consistency pairs and defaults, through DataFormat.set_property "
+        "and through Cid.read; the matrix is finite and enumerated completely. Expectations come from "
+        "docs/writing-an-icd.rst; undocumented-but-tolerated values are neutral.",
+        "Trusts the documentation as the definition of accepted values; the runtime's codec registry for encodings.",
+        "5/C11",
+    ),
+    "C12": (
+        "enumeration of all loader-accepted delimited formats x systematic and hypothesis tables, write/read round trip",
+        "All 5120 combinations of item delimiter, quote, escape, quoting and line delimiter are offered to the CID "
+        "loader; every accepted one round-trips systematic tables (every atom and ordered pair of its special "
+        "characters) plus Hypothesis tables through DelimitedRowWriter/delimited_rows and cutplace.Writer/rows.",
+        "Trusts Python's csv module for formats whose special characters are pairwise different; tables have >= 1 "
+        "column; the line delimiter actually written is not judged.",
+        "5/C12",
+    ),
+    "C15": (
+        "hypothesis tables through an independent ODF encoder (round trip) + enumerated container faults",
+        "Tables are written by an independent encoder (vlib/enc_ods.py, no cutplace import) with each optional ODF "
+        "feature switched independently (column/row runs, text:s/tab/line-break, spans, paragraphs, 7 XML encodings, "
+        "1-3 sheets) and must read back as the logical table via ods_rows and cutplace.rows; truncations, cuts at tag "
+        "boundaries and bad repeat counts must raise DataFormatError.",
+        "Trusts zipfile/ElementTree and the encoder's own reference decoder (self-tested on every file); trailing "
+        "empty cells/rows are compared modulo padding because ODF cannot represent them distinctly.",
+        "5/C15",
+    ),
+    "C16": (
+        "hypothesis workbooks written with XlsxWriter directly, rendering oracle + sheet selection + writer round trip",
+        "Workbooks with 1-3 distinguishable sheets and every cell kind (strings, integers to 2^53, floats, booleans, "
+        "dates, times, blanks, ragged rows; 1900/1904 date systems) are produced by an independent producer and read "
+        "via excel_rows and cutplace.rows for every sheet number; rendering is judged by a value-based oracle; string "
+        "tables round-trip through XlsxRowWriter; bundled .xls/.xlsx fixtures are cross-read with xlrd.",
+        "Trusts XlsxWriter and xlrd (self-tested per run); notation of numbers >= 1e16 and of fractions is only "
+        "required to denote the same double with no more digits than repr.",
+        "5/C16",
+    ),
+    "C19": (
+        "exhaustive boundary-pair sweep + hypothesis CIDs, generated DDL parsed back against a capacity table",
+        "All 1770 ordered pairs of integer limits from the boundary set x 4 dialects are generated and the column type "
+        "is checked against an independent capacity table; Hypothesis CIDs cover keyword names in all letter cases, "
+        "every field type, empty flags, text lengths and decimal rules; the statement is parsed back by an own parser.",
+        "Trusts the dialect's own keyword list as the definition of a keyword and the harness' capacity table "
+        "(T-SQL, DB2, Oracle; ANSI integer sizes are implementation defined and not judged).",
+        "5/C19",
+    ),
     "C13": (
         "bounded-exhaustive enumeration + hypothesis single-edit mutation against a language-membership oracle",
         "Every string over {a,b,CR,LF} up to length 7 (quick) / 9 (thorough) x 39 width lists x 5 delimiter "
